@@ -1,11 +1,14 @@
 #!/bin/bash
 # checker-only sweep over the seeded changes in /verif/seeded: does the seed's own property's check fire? which others?
-for d in /verif/seeded/C*-*; do
-  n=$(basename $d); id=${n%%-*}
-  [ -f $d/patch.diff ] || continue
+# usage: [JOBS=n] [IPLCHECK=binary] seed_sweep.sh        (one line per seed, sorted)
+one() {
+  d=$1; n=$(basename $d); id=${n%%-*}
+  [ -f $d/patch.diff ] || exit 0
   out=$(/verif/tools/trymut.sh $d/patch.diff all 2>&1)
   props=$(echo "$out" | grep -E "^(C[0-9]+) quick" | grep -v " 0 violations" | awk '{print $1}' | tr '\n' ' ')
   own=$(echo "$props" | grep -qw $id && echo DETECTED || echo missed)
   fail=$(echo "$out" | grep -c "PATCH-FAILED\|CHECKER-")
   echo "$n $own [$props] patchfail=$fail"
-done
+}
+if [ "${1:-}" = "--one" ]; then one "$2"; exit 0; fi
+ls -d /verif/seeded/C*-* | xargs -P "${JOBS:-1}" -n 1 "$0" --one | sort
